@@ -128,6 +128,11 @@ def run(ctx):
 
     th = threading.Thread(target=mc_job)
     th.start()
+    # the sliding-window power loop (exponent as a word sequence, every window length, every exponent of the scope)
+    for nm, w, mwords in [("w4", 4, 3)] + ([] if ctx.quick else [("w5", 5, 2), ("w3", 3, 4)]):
+        pcfg = fw.write_cfg(ctx.path("MC_ModPowAlg_%s.cfg" % nm), invariants=["ExponentOK", "RingOK", "ChooserOK"], constants={"W": w, "MaxWords": mwords})
+        ctx.mc("mc-powalg-" + nm, SPEC, "ModPowAlg.tla", pcfg, workers=4)
+    ctx.scope["pow_alg_scopes"] = "W=4 bits x 3 words" + ("" if ctx.quick else ", W=5 x 2, W=3 x 4") + ", every exponent, every window length 1..W-1"
 
     # 2. spec -> impl
     gcfg = fw.write_cfg(ctx.path("Gen_C13.cfg"), invariants=["Emit"],
